@@ -175,6 +175,14 @@ fn import_extension_fields(node: &mut Node, doc: &mut RustDocument, base_fields:
                 import_sequence_node_fields(&mut base, doc, base_fields)?;
             }
         }
+
+        // the attributes the extension adds come after its elements
+        for n in base.children().filter(Node::is_element) {
+            if n.tag_name().name() == "attribute" {
+                let field = Field::try_from_node(n, doc)?;
+                base_fields.push(field);
+            }
+        }
     }
     Ok(())
 }
